@@ -1442,6 +1442,8 @@ static int cfg_parse_internal(cfg_t *cfg, int level, int force_state, cfg_opt_t 
 				if (comment)
 					free(comment);
 				comment = strdup(cfg_yylval);
+				if (!comment)
+					goto error;
 				continue;
 
 			default:
@@ -1541,7 +1543,8 @@ static int cfg_parse_internal(cfg_t *cfg, int level, int force_state, cfg_opt_t 
 				goto error;
 
 			/* Inherit last read comment */
-			cfg_opt_setcomment(opt, comment);
+			if (comment && cfg_opt_setcomment(opt, comment) != CFG_SUCCESS)
+				goto error;
 			if (comment)
 				free(comment);
 			comment = NULL;
@@ -1566,7 +1569,8 @@ static int cfg_parse_internal(cfg_t *cfg, int level, int force_state, cfg_opt_t 
 				if (opt && opt->validcb && (*opt->validcb) (cfg, opt) != 0)
 					goto error;
 				/* Inherit last read comment */
-				cfg_opt_setcomment(opt, comment);
+				if (comment && cfg_opt_setcomment(opt, comment) != CFG_SUCCESS)
+					goto error;
 				if (comment)
 					free(comment);
 				comment = NULL;
